@@ -127,6 +127,7 @@ type Frame struct {
 	headNew    map[int]int
 	backStates map[*ssa.BasicBlock][]*State
 	backSrc    map[*ssa.BasicBlock][]*ssa.BasicBlock
+	logical    map[*types.Var]Val
 }
 
 type loopInfo struct {
